@@ -45,6 +45,10 @@ type AnchoredLiteralInfo struct {
 	// MinLength is the minimum input length for a possible match.
 	// Calculated as: len(Prefix) + WildcardMin + CharClassMin + len(Suffix)
 	MinLength int
+
+	// WildcardNoNewline is true when the wildcard is `.` without (?s): the part of the
+	// input it covers must not contain '\n'.
+	WildcardNoNewline bool
 }
 
 // DetectAnchoredLiteral analyzes a regex AST to detect patterns suitable
@@ -104,6 +108,7 @@ func DetectAnchoredLiteral(re *syntax.Regexp) *AnchoredLiteralInfo {
 	var wildcardMin int
 	var charClassTable *[256]bool
 	var charClassMin int
+	var wildcardNoNewline bool
 
 	// Scan from after start anchor to before suffix
 	for i := 1; i < suffixIdx; i++ {
@@ -117,6 +122,7 @@ func DetectAnchoredLiteral(re *syntax.Regexp) *AnchoredLiteralInfo {
 			}
 			wildcardIdx = i
 			wildcardMin = getWildcardMin(sub)
+			wildcardNoNewline = sub.Sub[0].Op == syntax.OpAnyCharNotNL
 		} else if wildcardIdx == -1 {
 			// Before wildcard - must be literal (prefix)
 			lit := extractLiteral(sub)
@@ -138,7 +144,13 @@ func DetectAnchoredLiteral(re *syntax.Regexp) *AnchoredLiteralInfo {
 		} else {
 			// After wildcard - must be charclass+ or nothing
 			if isCharClassPlus(sub) && i == suffixIdx-1 {
-				// Charclass bridge right before suffix
+				// Charclass bridge right before suffix (ASCII members only: the table is
+				// indexed by bytes)
+				for _, r := range sub.Sub[0].Rune {
+					if r > 127 {
+						return nil
+					}
+				}
 				charClassTable = buildCharClassTable(sub.Sub[0])
 				charClassMin = 1 // Plus requires at least 1
 			} else {
@@ -163,6 +175,8 @@ func DetectAnchoredLiteral(re *syntax.Regexp) *AnchoredLiteralInfo {
 		CharClassMin:   charClassMin,
 		WildcardMin:    wildcardMin,
 		MinLength:      minLen,
+
+		WildcardNoNewline: wildcardNoNewline,
 	}
 }
 
@@ -213,10 +227,14 @@ func extractLiteral(re *syntax.Regexp) []byte {
 	if re.Op != syntax.OpLiteral {
 		return nil
 	}
-	// Convert runes to bytes (assuming ASCII for now)
+	// A case-insensitive literal is not a fixed byte string.
+	if re.Flags&syntax.FoldCase != 0 {
+		return nil
+	}
+	// Convert runes to bytes: every non-ASCII rune is UTF-8 encoded (U+00E9 is C3 A9)
 	result := make([]byte, 0, len(re.Rune))
 	for _, r := range re.Rune {
-		if r > 255 {
+		if r > 127 {
 			// Non-ASCII literal - still valid but needs UTF-8 encoding
 			// For simplicity, encode as UTF-8
 			buf := make([]byte, 4)
@@ -323,7 +341,10 @@ func MatchAnchoredLiteral(input []byte, info *AnchoredLiteralInfo) bool {
 	if info.CharClassTable == nil {
 		// Still need to verify wildcard minimum
 		middleLen := suffixStart - len(info.Prefix)
-		return middleLen >= info.WildcardMin
+		if middleLen < info.WildcardMin {
+			return false
+		}
+		return !info.WildcardNoNewline || !containsNewline(input[len(info.Prefix):suffixStart])
 	}
 
 	// O(k) charclass bridge check
@@ -348,5 +369,19 @@ func MatchAnchoredLiteral(input []byte, info *AnchoredLiteralInfo) bool {
 		}
 	}
 
-	return found >= info.CharClassMin
+	if found < info.CharClassMin {
+		return false
+	}
+	// The longest bridge leaves the shortest stretch to the wildcard; that stretch must be
+	// free of '\n' when `.` does not match it.
+	return !info.WildcardNoNewline || !containsNewline(input[len(info.Prefix):charClassEnd-found])
+}
+
+func containsNewline(b []byte) bool {
+	for _, c := range b {
+		if c == '\n' {
+			return true
+		}
+	}
+	return false
 }
